@@ -145,6 +145,8 @@ class Harness:
         s.fresh()
         for op_ in sc_["setup"]:
             r = sc.execute(s, op_)
+            if r["out"] != "ok" and sc_["variant"].endswith("unrelated_content"):
+                return False
             if r["out"] != "ok":
                 raise MachineryError(f"setup step {op_['op']} of scenario {sc_['name']}/{sc_['prior']} failed: {r['exc']} {r['msg']}")
         self.snap = {d: p + ".pre" for d, p in s.paths.items()}
@@ -152,6 +154,7 @@ class Harness:
             shutil.copyfile(p, self.snap[d])
         self.snap_reg = (list(s.pygaps.MATERIAL_LIST), list(s.pygaps.ADSORBATE_LIST))
         self.pre_digest = {d: sc._file_digest(p) for d, p in s.paths.items()}
+        return True
 
     def restore(self, new_session=False):
         s = self.sess
@@ -309,6 +312,9 @@ def main(tier, seed):
                             "facts": rec["facts"], "statement_log": m.get("log_excerpt")})
             if ans["ok"]:
                 continue
+            if not ans["base_conforms"]:
+                run.add("not_judged_fault_free_call_already_leaves_Store_Spec")
+                continue
             pred = predicted.get(m["shape"], set())
             want = {"atomic": {"not_atomic:partial_effect_committed"}, "nothing_half_present": {"not_atomic:partial_effect_committed"},
                     "outcome_matches_effect": {"not_atomic:partial_effect_committed", "success_after_failed_statement"},
@@ -365,7 +371,9 @@ def enumerate_faults(run, H, scen, thorough, seed):
 
     for sc_ in scen:
         site, prior, op_ = sc_["name"], sc_["prior"], sc_["op"]
-        H.prepare(sc_)
+        if not H.prepare(sc_):
+            run.add("unrelated_content_variant_not_applicable")
+            continue
         pre = sc.spec_file(sess.project("d1"))
         retr_pre = H.retrievals(sc_)
         regs = sess.registry()
